@@ -257,6 +257,25 @@ pub fn match_events_before(
     also_ok: &[u64],
     max_id: Option<u64>,
 ) -> Result<Vec<u64>, usize> {
+    // identical events cannot be told apart on the wire: first the reading that prefers live events, and if that one is not
+    // oldest-first while the reading that simply takes the oldest candidate each time is, the latter
+    let a = match_events_pref(ledger, events, also_ok, max_id, true)?;
+    if a.windows(2).all(|w| w[0] < w[1]) {
+        return Ok(a);
+    }
+    match match_events_pref(ledger, events, also_ok, max_id, false) {
+        Ok(b) if b.windows(2).all(|w| w[0] < w[1]) => Ok(b),
+        _ => Ok(a),
+    }
+}
+
+fn match_events_pref(
+    ledger: &Ledger,
+    events: &[&Meas],
+    also_ok: &[u64],
+    max_id: Option<u64>,
+    prefer_live: bool,
+) -> Result<Vec<u64>, usize> {
     let mut ids: Vec<u64> = Vec::new();
     for (i, m) in events.iter().enumerate() {
         let candidates: Vec<&LedgerEvent> = ledger
@@ -272,14 +291,18 @@ pub fn match_events_before(
             .collect();
         let last = ids.last().copied();
         let asc = |e: &&&LedgerEvent| last.map(|l| e.id > l).unwrap_or(true);
-        let found = candidates
-            .iter()
-            .filter(|e| e.state == EvState::Live)
-            .find(asc)
-            .or_else(|| candidates.iter().find(|e| e.state == EvState::Live))
-            .or_else(|| candidates.iter().find(asc))
-            .or_else(|| candidates.first())
-            .copied();
+        let found = if prefer_live {
+            candidates
+                .iter()
+                .filter(|e| e.state == EvState::Live)
+                .find(asc)
+                .or_else(|| candidates.iter().find(|e| e.state == EvState::Live))
+                .or_else(|| candidates.iter().find(asc))
+                .or_else(|| candidates.first())
+                .copied()
+        } else {
+            candidates.iter().find(asc).or_else(|| candidates.first()).copied()
+        };
         match found {
             Some(e) => ids.push(e.id),
             None => return Err(i),
